@@ -22,13 +22,14 @@ import (
 	"github.com/AliyunContainerService/terway/zz_verif/vt"
 )
 
-// c08Pending lists finding ids the lead has not yet entered into known_findings.json but
-// whose guard must already be active (set through the unit's env in bin/props.d/C08.py).
+// c08Known: vt.Known, plus finding ids the lead has not yet entered into
+// known_findings.json but whose guard must already be active (VERIF_PENDING_KNOWN, set
+// through the test's env in bin/props.d/C02.py and C08.py until the lead lists them).
 func c08Known(id string) bool {
 	if vt.Known(id) {
 		return true
 	}
-	for _, p := range strings.Split(os.Getenv("VERIF_C08_PENDING_KNOWN"), ",") {
+	for _, p := range strings.Split(os.Getenv("VERIF_PENDING_KNOWN"), ",") {
 		if strings.TrimSpace(p) == id {
 			return true
 		}
@@ -99,8 +100,9 @@ func (w *c02World) onCall(cl *cloudctl.Cloud, c *cloudctl.Call) {
 	if c.EFLO {
 		batch = 1
 	}
+	kind := "count"
 	bad := func(f string, a ...any) {
-		w.monitor = append(w.monitor, fmt.Sprintf("call #%d %s: ", c.Seq, c.Kind)+fmt.Sprintf(f, a...))
+		w.monitor = append(w.monitor, c08Mon{kind: kind, msg: fmt.Sprintf("call #%d %s: ", c.Seq, c.Kind) + fmt.Sprintf(f, a...)})
 	}
 	if c.Fault != nil {
 		w.seenFault[c.Kind+"/"+c.Fault.Mode] = true
@@ -163,6 +165,7 @@ func (w *c02World) onCall(cl *cloudctl.Cloud, c *cloudctl.Call) {
 			bad("new interface requested while the node has %d by everything the controller was told; the flavor admits %d in total", counted, w.flavorTotal())
 		}
 		if same+1 > w.flavor(c.Type, mode) {
+			kind = "perkind"
 			bad("new %s/%s interface requested while the node has %d of that kind; the flavor admits %d", c.Type, mode, same, w.flavor(c.Type, mode))
 		}
 		if counted+1 == min(n.Adapters-1, w.flavorTotal()) || same+1 == w.flavor(c.Type, mode) {
@@ -286,6 +289,7 @@ func (w *c02World) afterCall(cl *cloudctl.Cloud, c *cloudctl.Call) {
 type c02StepResult struct {
 	mutations int
 	writes    int
+	changed   bool // interfaces / addresses / bindings of the record changed (timestamps and conditions ignored)
 	err       error
 	calls     []cloudctl.Call
 }
@@ -312,13 +316,26 @@ func (w *c02World) step(tag string) c02StepResult {
 		w.nt = true
 		w.c.Label(why)
 	}
+	enough := w.c08EnoughIdle(prev, pods)
+	lost := w.c08KnowledgeLost(prev)
+	emptyMode := false
+	for _, e := range prev.Status.NetworkInterfaces {
+		if e.NetworkInterfaceTrafficMode == "" {
+			emptyMode = true
+		}
+	}
 	_, err := w.rec.Reconcile(w.ctx, reconcile.Request{NamespacedName: client.ObjectKey{Name: c02NodeName}})
 	w.resetGuard()
 	cur := w.readNode()
 	res := c02StepResult{err: err, writes: w.writes, calls: w.cloud.Calls(from)}
+	res.changed = c02RenderRecord(prev.Status.NetworkInterfaces) != c02RenderRecord(cur.Status.NetworkInterfaces)
 	for i := range res.calls {
 		if res.calls[i].Mutating() {
 			res.mutations++
+		}
+		if enough && w.inSettle && w.c08NormalDemand(prev, &res.calls[i]) {
+			w.overDemand++
+			enough = false
 		}
 		if res.calls[i].Kind == cloudctl.KCreate && res.calls[i].Err == "" && w.writeErrs > 0 {
 			w.writeFailAtCreate[res.calls[i].ENI] = true
@@ -342,17 +359,41 @@ func (w *c02World) step(tag string) c02StepResult {
 	mon := w.monitor
 	w.monitor = nil
 	w.mu.Unlock()
-	if len(mon) > 0 && w.s.Mode == "C08" {
-		w.c.Fatalf("C08 quota monitor: %s", strings.Join(mon, "; "))
+	var hard []string
+	for _, m := range mon {
+		switch {
+		case lost != "" && c08Known("C08-lost-write-no-resync"):
+			// the controller was told about resources a failed record write then lost, and
+			// it did not resynchronise before asking for more
+			w.c.Label("known:C08-lost-write-no-resync")
+			w.c.Trace("    (known C08-lost-write-no-resync: %s; %s)", lost, m.msg)
+		case m.kind == "perkind" && emptyMode && c08Known("C08-rollback-record-lacks-mode"):
+			w.c.Label("known:C08-rollback-record-lacks-mode")
+			w.c.Trace("    (known C08-rollback-record-lacks-mode: %s)", m.msg)
+		default:
+			hard = append(hard, m.msg)
+		}
 	}
-	if len(mon) > 0 {
+	if len(hard) > 0 && w.s.Mode == "C08" {
+		w.c.Fatalf("C08 quota monitor: %s", strings.Join(hard, "; "))
+	}
+	if len(hard) > 0 {
 		w.c.Label("c08-monitor-hit-in-c02-mode")
 	}
 
 	// C02: invariants on the persisted record
-	msg, facts := c02CheckRecord(prev.Status.NetworkInterfaces, cur.Status.NetworkInterfaces, pods, w.everPod, w.s.Node.V4 && w.s.Node.V6, w.s.Node.ERDMA)
+	msg, facts := c02CheckRecord(prev.Status.NetworkInterfaces, cur.Status.NetworkInterfaces, pods, w.everPod, w.tainted, w.s.Node.ERDMA)
 	for f := range facts {
-		w.c.Label("c02:" + f)
+		switch {
+		case strings.HasPrefix(f, "taint:"):
+			w.tainted[strings.TrimPrefix(f, "taint:")] = true
+		case strings.HasPrefix(f, "class:"):
+			if c08Known(strings.TrimPrefix(f, "class:")) {
+				w.c.Label("known:" + strings.TrimPrefix(f, "class:"))
+			}
+		default:
+			w.c.Label("c02:" + f)
+		}
 	}
 	if facts["takeover"] {
 		w.nt = true
@@ -405,6 +446,102 @@ func (w *c02World) forceFullSync() {
 	n := w.readNode()
 	n.Status.NextSyncOpenAPITime = metav1.NewTime(time.Unix(1000, 0))
 	w.must(w.base.Status().Update(w.ctx, n))
+}
+
+// c08KnowledgeLost: the controller has been told about an interface or address that the
+// persisted record it is about to start from does not contain, and no full sync is
+// pending. Returns a description ("" if nothing is lost).
+func (w *c02World) c08KnowledgeLost(n *networkv1beta1.Node) string {
+	if w.needSync() || n.Status.NextSyncOpenAPITime.Time.Before(time.Now()) || (len(n.Status.NetworkInterfaces) == 0 && len(w.live) > 0) {
+		return ""
+	}
+	w.mu.Lock()
+	defer w.mu.Unlock()
+	ids := make([]string, 0, len(w.k))
+	for id := range w.k {
+		ids = append(ids, id)
+	}
+	sort.Strings(ids)
+	for _, id := range ids {
+		k := w.k[id]
+		if !k.counted {
+			continue
+		}
+		e := n.Status.NetworkInterfaces[id]
+		if e == nil {
+			return "interface " + id + " told but not in the persisted record"
+		}
+		for a := range k.v4 {
+			if e.IPv4[a] == nil && !strings.HasPrefix(a, "name:") {
+				return "address " + a + " on " + id + " told but not in the persisted record"
+			}
+		}
+		for a := range k.v6 {
+			if e.IPv6[a] == nil {
+				return "address " + a + " on " + id + " told but not in the persisted record"
+			}
+		}
+	}
+	return ""
+}
+
+// c08EnoughIdle: the record a pass starts from already holds enough idle addresses on
+// interfaces in use for every unserved pod of the normal class plus the pool minimum.
+func (w *c02World) c08EnoughIdle(n *networkv1beta1.Node, pods map[string]*c02PodView) bool {
+	nd := w.s.Node
+	has4, has6 := map[string]bool{}, map[string]bool{}
+	for _, b := range c02Bindings(n.Status.NetworkInterfaces) {
+		if b.pod != "" {
+			if b.v6 {
+				has6[b.pod] = true
+			} else {
+				has4[b.pod] = true
+			}
+		}
+	}
+	pending := 0
+	for id, p := range pods {
+		if !p.eligible || p.erdma {
+			continue
+		}
+		if (nd.V4 && !has4[id]) || (nd.V6 && !has6[id]) {
+			if has4[id] || has6[id] || p.v4 != "" || p.v6 != "" {
+				return false // partially bound / take-over pods: no simple count
+			}
+			pending++
+		}
+	}
+	idle := 0
+	for _, e := range n.Status.NetworkInterfaces {
+		if e.Status != aliyunClient.ENIStatusInUse || e.NetworkInterfaceTrafficMode == networkv1beta1.NetworkInterfaceTrafficModeHighPerformance {
+			continue
+		}
+		if e.NetworkInterfaceType != networkv1beta1.ENITypeSecondary && e.NetworkInterfaceType != networkv1beta1.ENITypeTrunk {
+			continue
+		}
+		i4, i6 := IdlesWithAvailable(e.IPv4), IdlesWithAvailable(e.IPv6)
+		switch {
+		case nd.V4 && nd.V6:
+			idle += min(i4, i6)
+		case nd.V4:
+			idle += i4
+		default:
+			idle += i6
+		}
+	}
+	return idle >= pending+nd.Min
+}
+
+// c08NormalDemand: the call asks the cloud for more addresses for the normal pool.
+func (w *c02World) c08NormalDemand(n *networkv1beta1.Node, c *cloudctl.Call) bool {
+	switch c.Kind {
+	case cloudctl.KCreate:
+		return c.Type == aliyunClient.ENITypeSecondary && !c.ERDMA
+	case cloudctl.KAssign4, cloudctl.KAssign6:
+		e := n.Status.NetworkInterfaces[c.ENI]
+		return e != nil && e.NetworkInterfaceTrafficMode != networkv1beta1.NetworkInterfaceTrafficModeHighPerformance
+	}
+	return false
 }
 
 // ------------------------------------------------------------------ history actions
@@ -611,10 +748,16 @@ func (w *c02World) settle() (bool, int) {
 	}
 	w.rec.vswpool.Del("vsw-pre")
 	w.forceFullSync()
+	w.inSettle = true
 	quiet := 0
 	for i := 0; i < c08Rounds; i++ {
 		r := w.step(fmt.Sprintf("settle%d", i))
-		if r.mutations == 0 && r.writes == 0 && r.err == nil {
+		w.settleTail = append(w.settleTail, r.calls)
+		if len(w.settleTail) > 10 {
+			w.settleTail = w.settleTail[1:]
+		}
+		// a quiet reconcile may still report "no capacity" or refresh sync timestamps
+		if r.mutations == 0 && !r.changed {
 			quiet++
 		} else {
 			quiet = 0
@@ -742,9 +885,36 @@ func c08Idle(n *networkv1beta1.Node, v4 bool) (idle, pinned int) {
 	return
 }
 
+// c08WhollyIdlePrimaries counts idle primaries of secondary/standard interfaces in use on
+// which nothing is bound (interfaces the controller could release as a whole).
+func c08WhollyIdlePrimaries(n *networkv1beta1.Node, v4 bool) int {
+	cnt := 0
+	for _, e := range n.Status.NetworkInterfaces {
+		if e.Status != aliyunClient.ENIStatusInUse || e.NetworkInterfaceType != networkv1beta1.ENITypeSecondary ||
+			e.NetworkInterfaceTrafficMode != networkv1beta1.NetworkInterfaceTrafficModeStandard {
+			continue
+		}
+		_, u4 := IPUsage(e.IPv4)
+		_, u6 := IPUsage(e.IPv6)
+		if u4+u6 > 0 {
+			continue
+		}
+		m := e.IPv4
+		if !v4 {
+			m = e.IPv6
+		}
+		for _, ip := range m {
+			if ip.Status == networkv1beta1.IPStatusValid && (ip.Primary || !v4) {
+				cnt++
+			}
+		}
+	}
+	return cnt
+}
+
 // c08Room reports whether, by cloud ground truth and the declared limits, the node could
 // still serve one more pod of the class (rdma or not).
-func (w *c02World) c08Room(f *c08Final, rdma bool) (bool, string) {
+func (w *c02World) c08Room(f *c08Final, rdma, growOnly bool) (bool, string) {
 	n := w.s.Node
 	free := min(w.flavorTotal()-len(f.visible), (n.Adapters-1-n.CloudENICut)-f.all)
 	cnt := map[string]int{}
@@ -784,8 +954,11 @@ func (w *c02World) c08Room(f *c08Final, rdma bool) (bool, string) {
 		if !rdma && e.Type != aliyunClient.ENITypeSecondary && e.Type != aliyunClient.ENITypeTrunk {
 			continue
 		}
-		ok4 := !n.V4 || len(e.V4) < n.V4Per || IdlesWithAvailable(r.IPv4) > 0
-		ok6 := !n.V6 || len(e.V6) < n.V6Per || IdlesWithAvailable(r.IPv6) > 0
+		ok4 := !n.V4 || len(e.V4) < n.V4Per || (!growOnly && IdlesWithAvailable(r.IPv4) > 0)
+		ok6 := !n.V6 || len(e.V6) < n.V6Per || (!growOnly && IdlesWithAvailable(r.IPv6) > 0)
+		if growOnly { // the idle count is taken on IPv4 when IPv4 is enabled
+			ok6 = ok6 || n.V4
+		}
 		if ok4 && ok6 {
 			return true, "room on " + id
 		}
@@ -867,19 +1040,26 @@ func (w *c02World) c08CheckConverged(f *c08Final) string {
 		if !ample {
 			continue
 		}
-		if room, why := w.c08Room(f, p.erdma); room {
+		if room, why := w.c08Room(f, p.erdma, false); room {
 			return fmt.Sprintf("fixed point reached but pod %s (rdma=%v) has no address although capacity is spare (%s)", id, p.erdma, why)
 		}
 		w.c.Label("conv:capacity-exhausted")
 	}
 	idle, pinned := c08Idle(f.node, n.V4)
-	if idle < n.Min && ample {
-		if room, why := w.c08Room(f, false); room {
+	if !ample {
+		// without spare vSwitch capacity every pass fails while adding addresses and the
+		// controller skips its trimming step; the convergence clause presupposes capacity
+		return ""
+	}
+	if idle < n.Min {
+		if room, why := w.c08Room(f, false, true); room {
 			return fmt.Sprintf("fixed point reached with %d idle addresses, below the pool minimum %d, although capacity is spare (%s)", idle, n.Min, why)
 		}
 		w.c.Label("conv:min-capacity-exhausted")
 	}
-	if idle-pinned > n.Max {
+	if idle-pinned > n.Max && c08Known("C08-idle-eni-kept") && c08WhollyIdlePrimaries(f.node, n.V4) >= idle-pinned-n.Max {
+		w.c.Label("known:C08-idle-eni-kept")
+	} else if idle-pinned > n.Max {
 		return fmt.Sprintf("fixed point reached with %d idle addresses (%d of them primaries of interfaces that must stay), above the pool maximum %d", idle, pinned, n.Max)
 	}
 	if pinned > 0 && idle > n.Max {
@@ -940,13 +1120,6 @@ func c02RunLoop(c *vt.Ctx, s c02Scenario) {
 		}
 		w.mu.Unlock()
 
-		if !fixed {
-			c.Fatalf("C08 convergence: no fixed point within %d healthy reconciles after the history (each still mutated the cloud, wrote the record or failed)\nrecord: %s", rounds, c02RenderRecord(f.node.Status.NetworkInterfaces))
-		}
-		c.Labelf("settle-rounds:%s", c08Bucket(rounds))
-		if w.needSync() {
-			c.Inconclusive("full sync still pending at the fixed point")
-		}
 		orphans := w.c08Orphans(f)
 		if len(orphans) > 0 {
 			if c08Known("C08-double-fault-orphan") && w.c08DoubleFaultOrphan(orphans) {
@@ -954,6 +1127,27 @@ func c02RunLoop(c *vt.Ctx, s c02Scenario) {
 			} else {
 				c.Fatalf("C08 rollback: interface(s) %v were created by a controller call, are not attached to the instance and are not recorded anywhere (leaked)\nrecord: %s", orphans, c02RenderRecord(f.node.Status.NetworkInterfaces))
 			}
+		}
+		if !fixed {
+			switch {
+			case s.Node.CloudENICut > 0 || f.all > len(f.visible):
+				// the cloud admits fewer interfaces than the node declares (or interfaces the
+				// controller cannot see use up the quota): there is no spare capacity to
+				// converge into, the precondition of the convergence clause does not hold
+				c.Label("conv:declared-limit-not-deliverable(skipped)")
+			case w.c08OscillationClass(f) != "":
+				c.Label("known:" + w.c08OscillationClass(f))
+			default:
+				c.Fatalf("C08 convergence: no fixed point within %d healthy reconciles after the history (each still mutated the cloud or wrote the record); rounds that requested addresses although enough were idle: %d\nrecord: %s", rounds, w.overDemand, c02RenderRecord(f.node.Status.NetworkInterfaces))
+			}
+			if w.nt {
+				c.NonTrivial()
+			}
+			return
+		}
+		c.Labelf("settle-rounds:%s", c08Bucket(rounds))
+		if w.needSync() {
+			c.Inconclusive("full sync still pending at the fixed point")
 		}
 		if msg := w.c08CheckRollback(f); msg != "" {
 			c.Fatalf("C08 rollback: after the forced full sync and %d healthy reconciles record and cloud disagree: %s\nrecord: %s", rounds, msg, c02RenderRecord(f.node.Status.NetworkInterfaces))
@@ -982,6 +1176,53 @@ func c08Bucket(n int) string {
 	default:
 		return ">16"
 	}
+}
+
+// c08OscillationClass classifies a missing fixed point as one of the recorded balancer
+// oscillations (the controller alternately assigns and unassigns idle addresses, nothing
+// else) and returns the id of the finding if it is listed, "" otherwise.
+func (w *c02World) c08OscillationClass(f *c08Final) string {
+	if len(w.settleTail) < 10 {
+		return ""
+	}
+	for _, round := range w.settleTail {
+		for i := range round {
+			switch round[i].Kind {
+			case cloudctl.KCreate, cloudctl.KAttach, cloudctl.KDetach, cloudctl.KDelete:
+				return ""
+			}
+		}
+	}
+	n := w.s.Node
+	imbalance, rdmaIdle := false, false
+	for _, e := range f.node.Status.NetworkInterfaces {
+		if e.Status != aliyunClient.ENIStatusInUse {
+			continue
+		}
+		i4, i6 := IdlesWithAvailable(e.IPv4), IdlesWithAvailable(e.IPv6)
+		for _, m := range []map[string]*networkv1beta1.IP{e.IPv4, e.IPv6} {
+			for _, ip := range m { // addresses on their way out were idle a round ago
+				if ip.Status == networkv1beta1.IPStatusDeleting && ip.PodID == "" {
+					imbalance = imbalance || (n.V4 && n.V6)
+				}
+			}
+		}
+		if n.V4 && n.V6 && i4 != i6 {
+			imbalance = true
+		}
+		if e.NetworkInterfaceTrafficMode == networkv1beta1.NetworkInterfaceTrafficModeHighPerformance && i4+i6 > 0 {
+			rdmaIdle = true
+		}
+	}
+	switch {
+	case w.overDemand > 0 && c08Known("C08-greedy-demand-oscillation"):
+		return "C08-greedy-demand-oscillation"
+	case n.ERDMA && rdmaIdle && c08Known("C08-rdma-idle-oscillation"):
+		return "C08-rdma-idle-oscillation"
+	case imbalance && c08Known("C08-dual-stack-trim-oscillation"):
+		return "C08-dual-stack-trim-oscillation"
+	}
+	return ""
 }
 
 // c08DoubleFaultOrphan decides whether every leaked interface belongs to the recorded
